@@ -100,6 +100,11 @@ func (x *Exec) isOpaqueCallee(fn *types.Func) bool {
 	if x.con == nil || fn == nil || fn.Pkg() == nil || !x.L.target[fn.Pkg().Path()] {
 		return false
 	}
+	for _, n := range strings.Split(x.con.Opts["inline"], ",") {
+		if strings.TrimSpace(n) == fn.Name() {
+			return false
+		}
+	}
 	for _, n := range strings.Split(x.con.Opts["opaque-calls"], ",") {
 		n = strings.TrimSpace(n)
 		if n != "" && (n == fn.Name() || n == "*") {
@@ -244,6 +249,17 @@ func (x *Exec) execStmt(s ast.Stmt, st *State) []*State {
 		for _, c := range x.hoist(s.X, st) {
 			if c.out == outNormal {
 				x.eval(s.X, c)
+				if cond, ok := c.names["$pendingPanicCond"].(string); ok {
+					delete(c.names, "$pendingPanicCond")
+					if c.out == outNormal && !c.infeasible(cond) {
+						p := c.clone()
+						p.assume(cond)
+						p.out = outPanic
+						p.note = "integer divide by zero"
+						out = append(out, p)
+						c.assume(not(cond))
+					}
+				}
 				if why, ok := c.names["$pendingPanic"]; ok {
 					delete(c.names, "$pendingPanic")
 					if c.out == outNormal {
@@ -312,6 +328,11 @@ func (x *Exec) execStmt(s ast.Stmt, st *State) []*State {
 			if c.out != outNormal {
 				out = append(out, c)
 				continue
+			}
+			if x.con != nil && len(x.con.FnEnsures) > 0 && x.litDepth == 0 && len(s.Results) == 1 {
+				if lit, ok := unparen(s.Results[0]).(*ast.FuncLit); ok {
+					x.verifyInlineLit(lit, c, x.con.FnParams, x.con.FnResults, nil, x.con.FnEnsures, "fn")
+				}
 			}
 			var rets []Value
 			if len(s.Results) == 0 {
@@ -561,7 +582,9 @@ func (x *Exec) assignTo(l ast.Expr, v Value, t types.Type, st *State) {
 			return
 		}
 		if fv, ok := v.(*FuncV); ok {
-			_ = fv
+			if fv.Lit != nil && f.Name() == "exec" && x.con != nil && x.con.Opts["gen"] == "true" && x.litDepth == 0 {
+				x.verifyInlineLit(fv.Lit, st, x.con.ExecParams, x.con.ExecResults, x.con.ExecRequires, x.con.ExecEnsures, "exec")
+			}
 			x.fieldWrite(st, ct, f, asTerm(cur), x.fresh("fn", SInt))
 			return
 		}
@@ -623,9 +646,13 @@ func (x *Exec) execIf(s *ast.IfStmt, st *State) []*State {
 				continue
 			}
 			cond := x.evalBool(s.Cond, c)
+			genUnit := x.con != nil && x.con.Opts["gen"] == "true" && x.litDepth == 0
 			if !c.infeasible(cond) {
 				t := c.clone()
 				t.assume(cond)
+				if genUnit {
+					t.trace = append(t.trace, traceLabel(s.Cond))
+				}
 				out = append(out, x.execBlock(s.Body.List, t)...)
 			}
 			if c.infeasible(not(cond)) {
@@ -633,6 +660,9 @@ func (x *Exec) execIf(s *ast.IfStmt, st *State) []*State {
 			}
 			f := c
 			f.assume(not(cond))
+			if genUnit {
+				f.trace = append(f.trace, "!"+traceLabel(s.Cond))
+			}
 			if s.Else != nil {
 				out = append(out, x.execStmt(s.Else, f)...)
 			} else {
@@ -777,6 +807,7 @@ func (x *Exec) switchClauses(s *ast.SwitchStmt, st *State) []*State {
 						}
 						t := h.clone()
 						t.assume(cond)
+						t.trace = append(t.trace, traceLabel(g))
 						out = append(out, x.execBlock(cc.Body, t)...)
 						h.assume(not(cond))
 						nxt = append(nxt, h)
@@ -790,6 +821,7 @@ func (x *Exec) switchClauses(s *ast.SwitchStmt, st *State) []*State {
 	}
 	for _, r := range rest {
 		if deflt != nil {
+			r.trace = append(r.trace, "default")
 			out = append(out, x.execBlock(deflt.Body, r)...)
 		} else {
 			out = append(out, r)
@@ -863,4 +895,12 @@ func (x *Exec) execTypeSwitch(s *ast.TypeSwitchStmt, st *State) []*State {
 		}
 	}
 	return out
+}
+
+// traceLabel is the short, source-derived label of a guard: it names a path of a generator.
+func traceLabel(e ast.Expr) string {
+	t := types.ExprString(e)
+	t = strings.TrimPrefix(t, "reflect.")
+	t = strings.ReplaceAll(t, " ", "")
+	return t
 }
